@@ -170,7 +170,8 @@ func runC14(c *core.Ctx) error {
 	c.Set("method_name_catalogue_states", len(catStims))
 
 	// 1c. exhaustive core configurations:
-	//  A recursive / masked / dictionary shapes; B template declaration + instantiation with names differing
+	//  A recursive / masked / dictionary shapes; D field names that collide only after deconfliction
+	//  (write -> Write0 meets a literal write0); B template declaration + instantiation with names differing
 	//  only by namespace; S constructor / type / function names that differ only by "namespace separator vs
 	//  case" (ab.cd / abCd, a.bC / aB.c, ab.Cd / AbCd); T TL2-origin combinators (struct, function with
 	//  builtin / array / empty / struct result) without and with a TL2 whitelist
@@ -190,6 +191,7 @@ func runC14(c *core.Ctx) error {
 	for _, cc := range []coreCfg{
 		{"A", c14CfgF(1, 2, `{"a"}`, "MCNameMenuOne", "MCFieldNamesTiny", "MCKindsCore", "{0}", `{}`, "MCMutationsNone", `{"plain"}`, `{"get"}`), 60, 1000, nil},
 		{"B", c14CfgF(2, 1, `{"a", "b"}`, "MCNameMenuOne", "MCFieldNamesTiny", "MCKindsTmpl", "{0}", `{}`, "MCMutationsNone", `{"plain"}`, `{}`), 40, 800, nil},
+		{"D", c14CfgF(1, 3, `{"a"}`, "MCNameMenuOne", "MCFieldNamesDeconf", "MCKindsInt", "{0}", `{}`, "MCMutationsNone", `{"plain"}`, `{}`), 80, 600, nil},
 		{"S", with(c14CfgF(2, 0, `{"", "ab", "a", "aB"}`, "MCNameMenuSep", "MCFieldNamesTiny", "MCKindsNone", "{0}", `{}`, "MCMutationsNone", `{"plain"}`, `{"abCd"}`),
 			"UNIONMENU", "MCUnionMenuNone"), 10, 1500, sepCaseTwins},
 		{"T", with(c14CfgF(2, 1, `{"x"}`, "MCNameMenuOne", "MCFieldNamesOne", "MCKindsInt", "{0}", `{}`, "MCMutationsNone", `{"tl2file", "tl2filewl"}`, `{"get"}`),
